@@ -33,23 +33,8 @@ def paths(repo: Repo, fn: FunctionInfo, bind: Optional[Dict[str, Term]] = None,
             # were confirmed on).  A helper a maintainer extracts, or a shared implementation
             # siblings are moved to, is analysed in place; the list decides only what is looked
             # through, never what is reported.
-            base = _baseline()
-            owners: Dict[str, List[str]] = {}
-            for q in base:
-                o, _, nm = q.rpartition('.')
-                owners.setdefault(nm, []).append(o)
-
-            def inline(fi, _b=base, _o=owners):
-                if fi.qualname in _b or fi.name.startswith('__'):
-                    return False
-                if fi.cls is not None:
-                    # a method moved up or down its class hierarchy is the same helper
-                    for o in _o.get(fi.name, ()):
-                        oc = repo.classes.get(o)
-                        if oc is not None and (repo.is_subclass(oc, fi.cls.qualname) or
-                                               repo.is_subclass(fi.cls, oc.qualname)):
-                            return False
-                return True
+            def inline(fi):
+                return is_new_helper(repo, fi)
         _path_cache[key] = Evaluator(repo, fn, bind, loop_unroll=loop_unroll, inline=inline).run()
     return _path_cache[key]
 
@@ -65,6 +50,65 @@ def _baseline() -> Set[str]:
         with open(f) as fh:
             _BASELINE = {ln.strip() for ln in fh if ln.strip()}
     return _BASELINE
+
+
+_OWNERS: Optional[Dict[str, List[str]]] = None
+
+
+def is_new_helper(repo: Repo, fi: FunctionInfo) -> bool:
+    """A function that did not exist on the tree the rule instances were confirmed on (and is
+    not a known method moved along its class hierarchy): looked through by default."""
+    global _OWNERS
+    base = _baseline()
+    if _OWNERS is None:
+        _OWNERS = {}
+        for q in base:
+            o, _, nm = q.rpartition('.')
+            _OWNERS.setdefault(nm, []).append(o)
+    if fi.qualname in base or fi.name.startswith('__'):
+        return False
+    if fi.cls is not None:
+        # a method moved up or down its class hierarchy is the same helper
+        for o in _OWNERS.get(fi.name, ()):
+            oc = repo.classes.get(o)
+            if oc is not None and (repo.is_subclass(oc, fi.cls.qualname) or
+                                   repo.is_subclass(fi.cls, oc.qualname)):
+                return False
+    return True
+
+
+def helper_closure(repo: Repo, fn: FunctionInfo, depth: int = 3) -> List[FunctionInfo]:
+    """``fn`` and the new helpers (see is_new_helper) it statically calls, transitively: the
+    body a syntax-directed rule has to look at when a maintainer splits ``fn`` into steps."""
+    out, todo = [fn], [(fn, 0)]
+    while todo:
+        cur, d = todo.pop()
+        if d >= depth:
+            continue
+        for n in ast.walk(cur.node):
+            if not isinstance(n, ast.Call):
+                continue
+            cand = None
+            if isinstance(n.func, ast.Name):
+                q = repo.resolve_name(cur.module, n.func.id)
+                cand = repo.functions.get(repo.canonical(q)) if q else None
+            elif isinstance(n.func, ast.Attribute) and isinstance(n.func.value, ast.Name) and \
+                    cur.cls is not None and cur.params and n.func.value.id == cur.params[0]:
+                cand = repo.find_method(cur.cls, n.func.attr)
+            elif isinstance(n.func, ast.Attribute) and isinstance(n.func.value, ast.Name) and \
+                    cur.cls is not None and n.func.value.id == cur.cls.name:
+                cand = repo.find_method(cur.cls, n.func.attr)
+            if cand is not None and cand not in out and is_new_helper(repo, cand):
+                out.append(cand)
+                todo.append((cand, d + 1))
+    return out
+
+
+def closure_nodes(repo: Repo, fn: FunctionInfo):
+    """(function, node) over the syntax trees of helper_closure(fn)."""
+    for fi in helper_closure(repo, fn):
+        for n in ast.walk(fi.node):
+            yield fi, n
 
 
 def returning(ps: Iterable[State]) -> List[State]:
@@ -336,6 +380,8 @@ def guards_of(p: State, ev: Event) -> List[Tuple[Term, bool]]:
             # return helper(...)): it decides the value the statement stores / returns
             call = fa[len(fe)]
             inside = {id(x) for x in ast.walk(ev.node)} if ev.node is not None else set()
+            # ... or inside the generator whose yield this loop iteration consumes
+            inside |= {id(c[3]) for c in ev.ctx if c and c[0] == 'loop' and len(c) > 3}
             if id(call) in inside:
                 out.append((e.data[0], e.data[1]))
             continue
@@ -408,6 +454,26 @@ def prior_assumes(p: State, ev: Event) -> List[Tuple[Term, bool]]:
             break
         if e.kind == 'assume':
             out.append((e.data[0], e.data[1]))
+    return out
+
+
+def path_guards(p: State, ev: Event) -> List[Tuple[Term, bool]]:
+    """guards_of plus the decisions taken EARLIER in the same loop iteration(s) on this path
+    (if c: return / continue / break guards): "if c: return A" followed by "return B" governs B
+    by not-c exactly as the else branch would."""
+    out = list(guards_of(p, ev))
+    le = tuple(c[1] for c in ev.ctx if c and c[0] == 'loop')
+    for e in p.events:
+        if e is ev:
+            break
+        if e.kind != 'assume' or not isinstance(e.node, (ast.If, ast.While)):
+            continue
+        la = tuple(c[1] for c in e.ctx if c and c[0] == 'loop')
+        if la != le[:len(la)]:
+            continue
+        g = (e.data[0], e.data[1])
+        if g not in out:
+            out.append(g)
     return out
 
 
